@@ -309,7 +309,7 @@ func genTextField(c *Chooser, p *fieldProfile, g *GenCfg, ap []uint64) FieldSpec
 	}
 	f.Len = nt
 	if g.WideNums && nt > 0 {
-		base := []int{0, 120, 130, 16380, 70000}[c.Choose(5, "wide.base")]
+		base := []int{0, 120, 130, 16380, 70000, 126, 254}[c.Choose(7, "wide.base")]
 		for i := range f.Toks {
 			for j := range f.Toks[i].Locs {
 				l := &f.Toks[i].Locs[j]
@@ -318,9 +318,19 @@ func genTextField(c *Chooser, p *fieldProfile, g *GenCfg, ap []uint64) FieldSpec
 				l.End += base * 3
 			}
 			// the frequency may exceed the number of recorded locations
-			f.Toks[i].Freq += []int{0, 0, 60, 130, 20000}[c.Choose(5, "wide.freq")]
+			f.Toks[i].Freq += []int{0, 0, 60, 130, 20000, 127, 255}[c.Choose(7, "wide.freq")]
 		}
-		f.Len += []int{0, 130, 300, 70000}[c.Choose(4, "wide.len")]
+		// (128, 256 and 16384 encode with a varint byte that is exactly 0x80)
+		switch k := c.Choose(7, "wide.len"); k {
+		case 4:
+			f.Len = 128
+		case 5:
+			f.Len = 256
+		case 6:
+			f.Len = 16384
+		default:
+			f.Len += []int{0, 130, 300, 70000}[k]
+		}
 	}
 	if p.Opts.SkipFreqNorm() {
 		// frequency and norm are not recorded; term vectors, if the field has
